@@ -2370,6 +2370,20 @@ func c15BytesBody(tape *simrt.Tape, o simwork.Opts, res *simwork.Result) {
 			break
 		}
 		dir := sides[tape.Choose(len(sides), "side")]
+		if dir != d.readDir && tape.Bool(1, 24, "write-fails-connection-used-on") {
+			// A Write that fails without writing anything (a deadline), after which
+			// the caller carries on with what follows: unusual, but it is a call
+			// sequence like any other and must not crash the wrapper. (The tracer has
+			// seen the bytes, the peer has not: only crashes and transparency are judged.)
+			n := d.chunk(dir, len(data[dir])-d.pos[dir])
+			d.doWrite(n, 0)
+			res.Faults["write-fails-connection-used-on"]++
+			if d.panicked {
+				break
+			}
+			d.pos[dir] += n
+			continue
+		}
 		d.step(dir, d.chunk(dir, len(data[dir])-d.pos[dir]))
 	}
 	d.finish()
